@@ -359,6 +359,13 @@ _ARITH = {
 
 def binop(interp, st, op, l, r, node=None):
     t = type(op)
+    I = _I()
+    if t is ast.Div and (I.is_obj(l) or I.is_obj(r) or isinstance(l, I.ObjMethod) or isinstance(r, I.ObjMethod)):
+        # `path / name` on opaque objects: an unknown function of the two
+        ls = [to_z3(x) for x in V.leaves_of(l) if x is not None and not isinstance(x, str)]
+        rs = [to_z3(x) for x in V.leaves_of(r) if x is not None and not isinstance(x, str)]
+        fn = z3.Function("obj.div!" + "_".join(str(x.sort()) for x in ls + rs), *([x.sort() for x in ls + rs] + [I.OBJ_SORT]))
+        return fn(*(ls + rs))
     # sequence / string operations
     if t is ast.Add:
         if isinstance(l, str) and isinstance(r, str):
@@ -478,6 +485,17 @@ def compare(interp, st, op, l, r, node=None):
     if t in (ast.In, ast.NotIn):
         res = contains(interp, st, r, l, node)
         return res if t is ast.In else b_not(res)
+    if isinstance(l, I.ObjMethod):
+        l = l.value
+    if isinstance(r, I.ObjMethod):
+        r = r.value
+    if (I.is_obj(l) or I.is_obj(r)) and t in (ast.Eq, ast.NotEq) and l is not None and r is not None:
+        # an opaque object against another one, or against a python literal (interned as an object constant)
+        a = l if I.is_obj(l) else V._coerce_objs(r, l)
+        b = r if I.is_obj(r) else V._coerce_objs(l, r)
+        if a is None or b is None or not (I.is_obj(a) and I.is_obj(b)):
+            raise Outside("comparison of an opaque object with a value containing symbolic parts", node)
+        return (a == b) if t is ast.Eq else (a != b)
     # None comparisons
     if l is None or r is None:
         if t is ast.Eq:
